@@ -104,6 +104,16 @@ func TestPrivateKey(priv []byte) int {
 	if l > 0 {
 		return l
 	}
+
+	// zero is not in [1, n-2], whatever the length of its encoding
+	var bits byte
+	for _, b := range priv {
+		bits |= b
+	}
+	if bits == 0 {
+		return -1
+	}
+
 	if l < 0 {
 		return 0
 	}
